@@ -703,3 +703,22 @@ def show_pat(p):
     if k == "Slice":
         return "[..]"
     return "<%s>" % k
+
+
+def walk_deep(facts, node, depth=2, _seen=None):
+    """All nodes of `node`, of the closures created in it, and of the bodies of the crate-local functions it calls
+    (transitively up to `depth` calls). For presence / absence questions ("is X ever done on this path?") that must not
+    depend on whether the code was factored into helpers."""
+    seen = _seen if _seen is not None else set()
+    for n in walk(node):
+        yield n
+        if n.get("k") == "Closure":
+            c = facts.by_path.get(n.get("d"))
+            if c is not None and c["path"] not in seen:
+                seen.add(c["path"])
+                yield from walk_deep(facts, c["body"], depth, seen)
+        elif depth > 0 and n.get("k") == "Call" and "f" in n:
+            g = facts.by_path.get(n.get("r") or "") or facts.by_path.get(n.get("f") or "")
+            if g is not None and g.get("dk") in ("Fn", "AssocFn") and g["path"] not in seen:
+                seen.add(g["path"])
+                yield from walk_deep(facts, g["body"], depth - 1, seen)
